@@ -1,205 +1,228 @@
 (* C07 — executable model of smartcore's least squares and ridge regression
-   (src/linear/linear_regression.rs, src/linear/ridge_regression.rs, the column statistics of
-   src/linalg/stats.rs, DenseMatrix::matmul / transpose / h_stack / add_mut, Vec::mean, and
-   src/linalg/cholesky.rs).  Definitions only, generic in the scalar operations `Ops T`
-   (Base/Num.v): the instance at `ROps` is what the theorems talk about, the instance at `FOps`
-   (binary64) is executed against the implementation by the correspondence check (Corr.v).
+   (src/linear/linear_regression.rs, src/linear/ridge_regression.rs), written on top of
+     - C03's model of DenseMatrix (`dm T`: nrows, ncols, column-major values) and of its operations
+       (transpose, matmul, h_stack, slice, fill, add, mean / std / scale of src/linalg/stats.rs,
+       Vec::mean), and
+     - C01's models of the solvers (cholesky + Cholesky::solve, qr_mut + QR::solve, svd_mut +
+       SVD::solve, on function matrices `nat -> nat -> T`).
+   Definitions only, generic in the scalar operations `Ops T` (Base/Num.v): the instance at `ROps`
+   is what the theorems talk about, the instance at `FOps` (binary64) is executed against the
+   implementation by the correspondence check (Corr.v).
 
    Transliteration notes
-   - a matrix is the list of its rows, a column vector (k x 1 DenseMatrix) / Vec a list; entries are
-     read by index (`mget`, `vget`) exactly as the Rust loops do with `get(i, j)`;
-   - every accumulation `s += ..` runs from zero upwards in the index (`osumn` of Base/Num.v),
-     every in-place `b[k] -= ..` chain is `ofold` (same order of subtractions);
-   - `x.powi(2)` is `x * x` (what LLVM's powi computes for the exponent 2);
-   - `T::from_usize(n)` is `oofnat n`; `T::epsilon()` is the parameter `eps`;
+   - `fit` is parameterised by the solver it calls (`solver : A -> b -> option X` on DenseMatrix
+     values); `cholesky_solve_mut`, `qr_solve_mut`, `svd_solve_with` below are the three trait
+     methods, each the C01 model wrapped with the shape tests of the Rust entry point.  The SVD
+     wrapper takes the factorisation routine as an argument (`svd_solve_mut` instantiates it with
+     C01's transliteration of svd_mut) so that the theorem about the SVD path can be stated for
+     every factorisation with the SVD's post-condition (C01 proves nothing about the sweeps);
    - `Err(..)` and panics are `None`;
-   - the linear solver called by `fit` (QR / SVD / Cholesky of C01) is the PARAMETER `solver`:
-     it receives the system exactly as `fit` builds it and returns the solution vector (for the
-     tall least-squares systems QR/SVD return a vector with at least ncols entries, of which `fit`
-     reads the first ncols).  `chol_solve` below is this property's own transliteration of
-     `cholesky_solve_mut`, so that the Cholesky ridge path can be executed end to end. *)
-From Coq Require Import List ZArith Bool.
+   - the in-place loop `for i in 0..p { x_t_x.add_element_mut(i, i, alpha) }` is a fold of C03's
+     `upd_element` (bounds as in the code); the loop `w.set(i, 0, w.get(i, 0) / col_std[i])` over
+     `col_std.iter().enumerate().take(p)` rewrites rows 0..min(p, len col_std) of column 0;
+   - `b += w.get(i, 0) * col_mean[i]` accumulates from zero upwards (`osumn`);
+   - `T::epsilon()` is the parameter `eps`. *)
+From Coq Require Import List Arith Bool ZArith.
 From SC Require Import Base.Num.
+From SC Require C01.Model C03.Model.
 Import ListNotations.
+
+Module L := SC.C01.Model.
+Module D := SC.C03.Model.
+Notation dm := D.dm.
+Notation nrows := D.nrows.
+Notation ncols := D.ncols.
+Notation values := D.values.
 
 Section Model.
   Context {T : Type} (O : Ops T).
-  Let zero := O.(o0).
-  Let one := O.(o1).
-  Let add := O.(oadd).
-  Let sub := O.(osub).
-  Let mul := O.(omul).
-  Let div := O.(odiv).
-  Let abs := O.(oabs).
-  Let sqrt := O.(osqrt).
-  Let ltb := O.(oltb).
-  Let leb := O.(oleb).
-  Let eqb := O.(oeqb).
+  Local Notation zero := (O.(o0)).
+  Local Notation one := (O.(o1)).
+  Local Notation add := (O.(oadd)).
+  Local Notation sub := (O.(osub)).
+  Local Notation mul := (O.(omul)).
+  Local Notation div := (O.(odiv)).
+  Local Notation abs := (O.(oabs)).
+  Local Notation ltb := (O.(oltb)).
+  Local Notation leb := (O.(oleb)).
+  Local Notation eqb := (O.(oeqb)).
+  Local Notation get := (D.get O).
 
-  (* ---------- containers ---------- *)
-  Definition vget (v : list T) (i : nat) : T := nth i v zero.
-  Definition mget (X : list (list T)) (i j : nat) : T := nth j (nth i X []) zero.
-  Definition nrows (X : list (list T)) : nat := length X.
-  Definition ncols (X : list (list T)) : nat := length (hd [] X).
-  Definition tab (n : nat) (f : nat -> T) : list T := map f (seq 0 n).
-  Definition mtab (n p : nat) (f : nat -> nat -> T) : list (list T) :=
-    map (fun i => tab p (f i)) (seq 0 n).
-  (* init, then f 0, f 1, ..., f (n-1) applied in this order *)
-  Fixpoint ofold (n : nat) (f : nat -> T -> T) (init : T) : T :=
-    match n with 0 => init | S k => f k (ofold k f init) end.
+  (* DenseMatrix <-> the function matrices of C01 *)
+  Definition to_mx (A : dm T) : @L.Mx T := fun i j => get A i j.
+  Definition of_mx (n p : nat) (A : @L.Mx T) : dm T := D.tab n p A.
+  (* M::from_row_vector(y.clone()).transpose() : the n x 1 column *)
+  Definition col_vec (y : list T) : dm T := D.transpose O (D.from_row_vector y).
 
-  (* ---------- src/linalg/stats.rs, axis 0 ---------- *)
-  Definition col_mean (X : list (list T)) : list T :=
-    let n := nrows X in
-    tab (ncols X) (fun j => div (osumn O n (fun i => mget X i j)) (oofnat O n)).
-  Definition col_var (X : list (list T)) : list T :=
-    let n := nrows X in
-    tab (ncols X) (fun j =>
-      let mu := div (osumn O n (fun i => mget X i j)) (oofnat O n) in
-      let sm := osumn O n (fun i => mul (mget X i j) (mget X i j)) in
-      sub (div sm (oofnat O n)) (mul mu mu)).
-  Definition col_std (X : list (list T)) : list T := map sqrt (col_var X).
-  Definition scale (X : list (list T)) (mean std : list T) : list (list T) :=
-    mtab (nrows X) (ncols X) (fun i j => div (sub (mget X i j) (vget mean j)) (vget std j)).
+  (* ---------- the three solver entry points ---------- *)
+  (* cholesky_mut (Err on a non-square matrix or a negative / NaN pivot), then Cholesky::solve
+     (Err when b has another number of rows) *)
+  Definition cholesky_solve_mut (A b : dm T) : option (dm T) :=
+    if negb (nrows A =? ncols A) then None
+    else match L.cholesky O (ncols A) (to_mx A) with
+         | None => None
+         | Some R =>
+           if negb (nrows b =? nrows A) then None
+           else Some (of_mx (nrows b) (ncols b) (L.chol_solve O (nrows b) (ncols b) R (to_mx b)))
+         end.
+  (* qr_mut, then QR::solve (panics on a row mismatch and on an exactly zero diagonal of R); the
+     result is b overwritten: all nrows b rows, of which the first ncols A are the solution *)
+  Definition qr_solve_mut (A b : dm T) : option (dm T) :=
+    if negb (nrows b =? nrows A) then None
+    else match L.qr_solve_mut O (nrows A) (ncols A) (ncols b) (to_mx A) (to_mx b) with
+         | None => None
+         | Some X => Some (of_mx (nrows b) (ncols b) X)
+         end.
+  (* svd_mut (Err/panic = None), then SVD::solve (panics on a row mismatch); b overwritten *)
+  Definition svd_solve_with (fact : nat -> nat -> @L.Mx T -> option (@L.svd_st T)) (eps : T) (A b : dm T)
+    : option (dm T) :=
+    match fact (nrows A) (ncols A) (to_mx A) with
+    | None => None
+    | Some st =>
+      if negb (nrows A =? nrows b) then None
+      else Some (of_mx (nrows b) (ncols b)
+                   (L.svd_solve O eps (nrows A) (ncols A) (ncols b) (L.sU st) (L.sw st) (L.sV st) (to_mx b)))
+    end.
+  Definition svd_solve_mut (eps : T) (copysign : T -> T -> T) (minpos : T) : dm T -> dm T -> option (dm T) :=
+    svd_solve_with (L.svd_mut O eps copysign minpos) eps.
 
-  (* Vec::mean *)
-  Definition vmean (y : list T) : T :=
-    div (osumn O (length y) (fun i => vget y i)) (oofnat O (length y)).
-
-  (* RidgeRegression::rescale_x *)
-  Definition rescale_x (eps : T) (X : list (list T)) : option (list (list T) * list T * list T) :=
-    let mean := col_mean X in
-    let std := col_std X in
-    if existsb (fun s => ltb (abs (sub s zero)) eps) std then None
-    else Some (scale X mean std, mean, std).
-
-  (* x_t.matmul(&x) with alpha added on the diagonal, and x_t.matmul(&y_column) *)
-  Definition gram_alpha (Z : list (list T)) (alpha : T) : list (list T) :=
-    let n := nrows Z in
-    let p := ncols Z in
-    mtab p p (fun r c =>
-      let g := osumn O n (fun i => mul (mget Z i r) (mget Z i c)) in
-      if Nat.eqb r c then add g alpha else g).
-  Definition xty (Z : list (list T)) (y : list T) : list T :=
-    tab (ncols Z) (fun r => osumn O (nrows Z) (fun i => mul (mget Z i r) (vget y i))).
-
-  (* back-transformation of the normalised fit *)
-  Definition back_w (p : nat) (s std : list T) : list T := tab p (fun i => div (vget s i) (vget std i)).
-  Definition back_b (p : nat) (w mean : list T) (y : list T) : T :=
-    sub (vmean y) (osumn O p (fun i => mul (vget w i) (vget mean i))).
+  (* ---------- RidgeRegression ---------- *)
+  (* rescale_x *)
+  Definition rescale_x (eps : T) (X : dm T) : option (dm T * list T * list T) :=
+    let col_mean := D.mean O X true in
+    let col_std := D.std O X true in
+    if existsb (fun s => ltb (abs (sub s zero)) eps) col_std then None
+    else match D.scale O X col_mean col_std true with
+         | None => None
+         | Some Z => Some (Z, col_mean, col_std)
+         end.
+  (* for i in 0..p { m.add_element_mut(i, i, alpha) } *)
+  Definition add_diag (p : nat) (A : dm T) (alpha : T) : option (dm T) :=
+    fold_left (fun acc i => match acc with
+                            | None => None
+                            | Some M => D.upd_element O (fun v => add v alpha) M i i
+                            end) (seq 0 p) (Some A).
+  (* x_t = z.transpose(); x_t_y = x_t.matmul(y_column); x_t_x = x_t.matmul(z) + alpha on the diagonal *)
+  Definition ridge_system (p : nat) (Z y_column : dm T) (alpha : T) : option (dm T * dm T) :=
+    let x_t := D.transpose O Z in
+    match D.matmul O x_t y_column with
+    | None => None
+    | Some x_t_y =>
+      match D.matmul O x_t Z with
+      | None => None
+      | Some x_t_x =>
+        match add_diag p x_t_x alpha with
+        | None => None
+        | Some a => Some (a, x_t_y)
+        end
+      end
+    end.
+  (* for (i, s) in col_std.iter().enumerate().take(p) { w.set(i, 0, w.get(i, 0) / s) } *)
+  Definition unscale_w (p : nat) (w : dm T) (col_std : list T) : option (dm T) :=
+    fold_left (fun acc i => match acc with
+                            | None => None
+                            | Some M => match D.get_chk M i 0 with
+                                        | None => None
+                                        | Some v => D.set M i 0 (div v (nth i col_std zero))
+                                        end
+                            end) (seq 0 (Nat.min p (length col_std))) (Some w).
 
   Section WithSolver.
-    Variable solver : list (list T) -> list T -> option (list T).
+    Variable solver : dm T -> dm T -> option (dm T).
 
-    (* RidgeRegression::fit *)
-    Definition ridge_fit (eps : T) (X : list (list T)) (y : list T) (alpha : T) (normalize : bool)
-      : option (list T * T) :=
+    (* RidgeRegression::fit: coefficients (a p x 1 matrix) and intercept *)
+    Definition ridge_fit (eps : T) (X : dm T) (y : list T) (alpha : T) (normalize : bool)
+      : option (dm T * T) :=
       let n := nrows X in
       let p := ncols X in
-      if Nat.leb n p then None
-      else if negb (Nat.eqb (length y) n) then None
-      else if normalize then
-        match rescale_x eps X with
-        | None => None
-        | Some (Z, mean, std) =>
-          match solver (gram_alpha Z alpha) (xty Z y) with
-          | None => None
-          | Some s => let w := back_w p s std in Some (w, back_b p w mean y)
-          end
-        end
+      if n <=? p then None
+      else if negb (length y =? n) then None
       else
-        match solver (gram_alpha X alpha) (xty X y) with
-        | None => None
-        | Some s => Some (s, zero)
-        end.
+        let y_column := col_vec y in
+        if normalize then
+          match rescale_x eps X with
+          | None => None
+          | Some (Z, col_mean, col_std) =>
+            match ridge_system p Z y_column alpha with
+            | None => None
+            | Some (a, rhs) =>
+              match solver a rhs with
+              | None => None
+              | Some w0 =>
+                match unscale_w p w0 col_std with
+                | None => None
+                | Some w =>
+                  (* for (i, m) in col_mean.iter().enumerate().take(p) { b += w.get(i, 0) * m } *)
+                  if existsb (fun i => match D.get_chk w i 0 with None => true | Some _ => false end)
+                             (seq 0 (Nat.min p (length col_mean))) then None
+                  else
+                    let b := osumn O (Nat.min p (length col_mean)) (fun i => mul (get w i 0) (nth i col_mean zero)) in
+                    Some (w, sub (D.vmean O y) b)
+                end
+              end
+            end
+          end
+        else
+          match ridge_system p X y_column alpha with
+          | None => None
+          | Some (a, rhs) =>
+            match solver a rhs with
+            | None => None
+            | Some w => Some (w, zero)
+            end
+          end.
 
     (* LinearRegression::fit *)
-    Definition augment (X : list (list T)) : list (list T) :=
-      let p := ncols X in
-      mtab (nrows X) (S p) (fun i j => if Nat.ltb j p then mget X i j else one).
-    Definition ols_fit (X : list (list T)) (y : list T) : option (list T * T) :=
-      let p := ncols X in
-      if negb (Nat.eqb (nrows X) (length y)) then None
-      else match solver (augment X) y with
+    Definition ols_fit (X : dm T) (y : list T) : option (dm T * T) :=
+      let b := col_vec y in
+      let num_attributes := ncols X in
+      if negb (nrows X =? nrows b) then None
+      else match D.h_stack O X (D.ones O (nrows X) 1) with
            | None => None
-           | Some w => Some (tab p (fun k => vget w k), vget w p)
+           | Some a =>
+             match solver a b with
+             | None => None
+             | Some w =>
+               match D.slice O w 0 num_attributes 0 1, D.get_chk w num_attributes 0 with
+               | Some wights, Some ic => Some (wights, ic)
+               | _, _ => None
+               end
+             end
            end.
   End WithSolver.
 
-  (* {LinearRegression, RidgeRegression}::predict: x.matmul(&coefficients), then the intercept
-     is added to every entry; a shape mismatch panics in matmul *)
-  Definition predict (X : list (list T)) (w : list T) (b : T) : option (list T) :=
-    let p := ncols X in
-    if negb (Nat.eqb p (length w)) then None
-    else Some (tab (nrows X) (fun i => add (osumn O p (fun k => mul (mget X i k) (vget w k))) b)).
-
-  (* ---------- src/linalg/cholesky.rs: cholesky_mut, Cholesky::solve (one right-hand side) ---------- *)
-  (* entries 0..k-1 of row j of the factor, given the finished rows L above it *)
-  Fixpoint chol_row (A L : list (list T)) (j k : nat) : list T :=
-    match k with
-    | 0 => []
-    | S k' =>
-      let r := chol_row A L j k' in
-      r ++ [div (sub (mget A j k') (osumn O k' (fun i => mul (mget L k' i) (vget r i)))) (mget L k' k')]
-    end.
-  Fixpoint chol_rows (A : list (list T)) (j : nat) : option (list (list T)) :=
-    match j with
-    | 0 => Some []
-    | S j' =>
-      match chol_rows A j' with
+  (* {LinearRegression, RidgeRegression}::predict *)
+  Definition predict (X w : dm T) (b : T) : option (list T) :=
+    match D.matmul O X w with
+    | None => None
+    | Some y_hat =>
+      match D.add O y_hat (D.fill (nrows X) 1 b) with
       | None => None
-      | Some L =>
-        let r := chol_row A L j' j' in
-        let d := sub (mget A j' j') (osumn O j' (fun k => mul (vget r k) (vget r k))) in
-        if ltb d zero || negb (eqb d d) then None
-        else Some (L ++ [r ++ [sqrt d]])
+      | Some y2 => Some (D.to_row_vector O (D.transpose O y2))
       end
     end.
-  (* forward substitution: z_0 .. z_{k-1} *)
-  Fixpoint chol_fwd (L : list (list T)) (b : list T) (k : nat) : list T :=
-    match k with
-    | 0 => []
-    | S k' =>
-      let z := chol_fwd L b k' in
-      z ++ [div (ofold k' (fun i acc => sub acc (mul (vget z i) (mget L k' i))) (vget b k')) (mget L k' k')]
-    end.
-  (* backward substitution: x_{n-m} .. x_{n-1} *)
-  Fixpoint chol_bwd (L : list (list T)) (z : list T) (n m : nat) : list T :=
-    match m with
-    | 0 => []
-    | S m' =>
-      let xs := chol_bwd L z n m' in
-      let k := n - S m' in
-      div (ofold m' (fun t acc => sub acc (mul (vget xs t) (mget L (k + 1 + t) k))) (vget z k)) (mget L k k) :: xs
-    end.
-  Definition chol_solve (A : list (list T)) (b : list T) : option (list T) :=
-    let n := nrows A in
-    if negb (Nat.eqb n (ncols A)) then None
-    else match chol_rows A n with
-         | None => None
-         | Some L => if negb (Nat.eqb (length b) n) then None
-                     else Some (chol_bwd L (chol_fwd L b n) n n)
-         end.
 
   (* ---------- the stationarity validator ----------
      For the objective  J(w, c) = sum_i (y_i - sum_k Z_ik w_k - c)^2 + alpha * sum_k w_k^2 :
        sg_w j = alpha * w_j - sum_i Z_ij r_i   ( = 1/2 dJ/dw_j ),   sg_c = - sum_i r_i  ( = 1/2 dJ/dc )
      with r_i the residual.  Each component is compared with tol times the magnitude of the terms
      it is computed from (the natural rounding scale).  `free` = the intercept is a variable of the
-     minimisation (then its derivative is tested), otherwise it must be exactly zero. *)
-  Definition resid (p : nat) (Z : list (list T)) (y w : list T) (c : T) (i : nat) : T :=
-    sub (sub (vget y i) (osumn O p (fun k => mul (mget Z i k) (vget w k)))) c.
-  Definition absrow (p : nat) (Z : list (list T)) (y w : list T) (c : T) (i : nat) : T :=
-    add (add (abs (vget y i)) (osumn O p (fun k => mul (abs (mget Z i k)) (abs (vget w k))))) (abs c).
-  Definition sg_w (n p : nat) (Z : list (list T)) (y : list T) (alpha : T) (w : list T) (c : T) (j : nat) : T :=
-    sub (mul alpha (vget w j)) (osumn O n (fun i => mul (mget Z i j) (resid p Z y w c i))).
-  Definition sg_c (n p : nat) (Z : list (list T)) (y w : list T) (c : T) : T :=
+     minimisation (then its derivative is tested), otherwise it must be exactly zero.
+     Z is n x p, the coefficient vector a list. *)
+  Definition vget (v : list T) (i : nat) : T := nth i v zero.
+  Definition resid (p : nat) (Z : dm T) (y w : list T) (c : T) (i : nat) : T :=
+    sub (sub (vget y i) (osumn O p (fun k => mul (get Z i k) (vget w k)))) c.
+  Definition absrow (p : nat) (Z : dm T) (y w : list T) (c : T) (i : nat) : T :=
+    add (add (abs (vget y i)) (osumn O p (fun k => mul (abs (get Z i k)) (abs (vget w k))))) (abs c).
+  Definition sg_w (n p : nat) (Z : dm T) (y : list T) (alpha : T) (w : list T) (c : T) (j : nat) : T :=
+    sub (mul alpha (vget w j)) (osumn O n (fun i => mul (get Z i j) (resid p Z y w c i))).
+  Definition sg_c (n p : nat) (Z : dm T) (y w : list T) (c : T) : T :=
     sub zero (osumn O n (fun i => resid p Z y w c i)).
-  Definition scale_w (n p : nat) (Z : list (list T)) (y : list T) (alpha : T) (w : list T) (c : T) (j : nat) : T :=
-    add (mul (abs alpha) (abs (vget w j))) (osumn O n (fun i => mul (abs (mget Z i j)) (absrow p Z y w c i))).
-  Definition scale_c (n p : nat) (Z : list (list T)) (y w : list T) (c : T) : T :=
+  Definition scale_w (n p : nat) (Z : dm T) (y : list T) (alpha : T) (w : list T) (c : T) (j : nat) : T :=
+    add (mul (abs alpha) (abs (vget w j))) (osumn O n (fun i => mul (abs (get Z i j)) (absrow p Z y w c i))).
+  Definition scale_c (n p : nat) (Z : dm T) (y w : list T) (c : T) : T :=
     osumn O n (fun i => absrow p Z y w c i).
-  Definition check_stationary (Z : list (list T)) (y : list T) (alpha : T) (w : list T) (c : T)
+  Definition check_stationary (Z : dm T) (y : list T) (alpha : T) (w : list T) (c : T)
              (free : bool) (tol : T) : bool :=
     let n := nrows Z in
     let p := ncols Z in
@@ -211,16 +234,16 @@ Section Model.
      ridge, normalize = false: raw columns, intercept fixed at 0;
      ridge, normalize = true: standardised columns Z = (X - mean)/std, coefficients w_j * std_j,
        intercept b + sum_j w_j mean_j (the inverse of the back-transformation), free intercept *)
-  Definition check_ols (X : list (list T)) (y w : list T) (b tol : T) : bool :=
+  Definition check_ols (X : dm T) (y w : list T) (b tol : T) : bool :=
     check_stationary X y zero w b true tol.
-  Definition check_ridge (eps : T) (X : list (list T)) (y : list T) (alpha : T) (normalize : bool)
+  Definition check_ridge (eps : T) (X : dm T) (y : list T) (alpha : T) (normalize : bool)
              (w : list T) (b tol : T) : bool :=
     if normalize then
       match rescale_x eps X with
       | None => false
       | Some (Z, mean, std) =>
         let p := ncols X in
-        let ws := tab p (fun j => mul (vget w j) (vget std j)) in
+        let ws := map (fun j => mul (vget w j) (vget std j)) (seq 0 p) in
         let c := add b (osumn O p (fun j => mul (vget w j) (vget mean j))) in
         check_stationary Z y alpha ws c true tol
       end
